@@ -392,8 +392,7 @@ const char * vbi_proxy_msg_debug_get_type_str( VBIPROXY_MSG_TYPE type )
 */
 vbi_bool vbi_proxy_msg_read_idle( VBIPROXY_MSG_STATE * pIO )
 {
-   assert((pIO->readOff == 0) || (pIO->readOff == pIO->readLen));
-
+   /* See vbi_proxy_msg_is_idle(): a half-read message is not an error. */
    return (pIO->readOff == 0);
 }
 
@@ -404,8 +403,8 @@ vbi_bool vbi_proxy_msg_write_idle( VBIPROXY_MSG_STATE * pIO )
 
 vbi_bool vbi_proxy_msg_is_idle( VBIPROXY_MSG_STATE * pIO )
 {
-   assert((pIO->readOff == 0) || (pIO->readOff == pIO->readLen));
-
+   /* A partially received message (0 < readOff < readLen) is a normal
+      state: the peer decides when the rest arrives. Not idle. */
    return ((pIO->writeLen == 0) && (pIO->readOff == 0));
 }
 
